@@ -1,6 +1,6 @@
 From Coq Require Import Reals ZArith List String.
 From Coquelicot Require Import Coquelicot.
-From OV Require Import Ops RInst XR Gen.RealRays Gen.Standard Gen.Geometries Model.Trace Lemmas.L_RealRays Lemmas.L_Standard Lemmas.L_Trace Lemmas.L_Gradient Lemmas.L_RealRaysX.
+From OV Require Import Ops RInst XR Gen.RealRays Gen.Standard Gen.Geometries Model.Trace Lemmas.L_RealRays Lemmas.L_Standard Lemmas.L_Trace Lemmas.L_Gradient Lemmas.L_RealRaysX Lemmas.L_Frame.
 Local Open Scope R_scope.
 Import ListNotations.
 
@@ -334,4 +334,25 @@ Theorem C02_reflect_lift :
        (let '(a, b, c) := k_reflect ROps nx ny nz L M N in (Fin a, Fin b, Fin c)).
 Proof. exact reflect_lift. Qed.
 Print Assumptions C02_reflect_lift.
+
+Theorem C02_globalize_localize :
+  forall (s : surf ROps) (r : ray ROps), globalize s (localize s r) = r.
+Proof. exact globalize_localize. Qed.
+Print Assumptions C02_globalize_localize.
+
+Theorem C02_localize_globalize :
+  forall (s : surf ROps) (r : ray ROps), localize s (globalize s r) = r.
+Proof. exact localize_globalize. Qed.
+Print Assumptions C02_localize_globalize.
+
+Theorem C02_recorded_point_in_surface_frame :
+  forall (s : surf ROps) (r r' : ray ROps),
+       trace_surface s r = Some r' ->
+       exists t : R,
+         distance (s_shape s) (localize s r) = Some t /\
+         (let l := localize s r in
+          let l' := localize s r' in
+          rx l' = (rx l + t * rL l)%R /\ ry l' = (ry l + t * rM l)%R /\ rz l' = (rz l + t * rN l)%R).
+Proof. exact recorded_point_in_surface_frame. Qed.
+Print Assumptions C02_recorded_point_in_surface_frame.
 
